@@ -372,8 +372,9 @@ func UniqueIDs(r *rand.Rand, n int, mk func(*rand.Rand) string) []string {
 	return out
 }
 
-// RelatedIDs: n distinct short identifiers over {a,b,-} (length 1..4), so that identifiers are prefixes, suffixes and
-// concatenations of one another ("a"+"bb" == "ab"+"b"): keys built by gluing identifiers together collide on them.
+// RelatedIDs: n distinct short identifiers over {a,1,-} (length 1..4), so that identifiers are prefixes, suffixes and
+// concatenations of one another ("a"+"11" == "a1"+"1") and end in digits: keys built by gluing identifiers (and
+// numbers) together collide on them.
 func RelatedIDs(r *rand.Rand, n int) []string {
 	var all []string
 	var rec func(p string)
@@ -384,7 +385,7 @@ func RelatedIDs(r *rand.Rand, n int) []string {
 		if len(p) == 4 {
 			return
 		}
-		for _, ch := range "ab-" {
+		for _, ch := range "a1-" {
 			rec(p + string(ch))
 		}
 	}
@@ -411,7 +412,7 @@ func IsRelatedIDs(nl *sbom.NodeList) bool {
 		return false
 	}
 	for _, n := range nl.Nodes {
-		if len(n.Id) == 0 || len(n.Id) > 4 || strings.Trim(n.Id, "ab-") != "" {
+		if len(n.Id) == 0 || len(n.Id) > 4 || strings.Trim(n.Id, "a1-") != "" {
 			return false
 		}
 	}
